@@ -33,7 +33,7 @@ ASSUMPTIONS = [
     "the one-second grace timer is the real one: orderings that put steps before it rely on those steps finishing within 1 s; when they do not, the run takes the (valid) time-out branch and is counted as drift, not as a violation",
     "loopback TCP and relay runs are schedule samples, not enumerations; the relay's own listener is not observable (its steps are silent in the trace spec)",
     "with a relay in the path the harness closes the server's end of the tunnel last and reports read errors of the relay's upstream connection as EOF (TrzszRelay's tunnel pumps busy-loop on other read errors; outside this property)",
-    "TLC fingerprint collisions negligible (reported probability < 1e-6)",
+    "TLC fingerprint collisions negligible (reported probability < 1e-4 for the largest configuration)",
 ]
 
 INVS = "TypeOK AtMostOneAdopted AdoptedAuthenticated NoAnswerToStrangers OnlyAdoptedFeeds FallbackWorks AgreeConsistent NoLateAdoption"
@@ -259,7 +259,7 @@ def run(tier, v):
         cases, ngroups = list(allc), len({_group(c) for c in allc})
     cov["mbt_outcome_classes_n2"] = ngroups
     g3 = vlib.tlc("TunnelGen", "TunnelGen_sim.cfg", workers=1, timeout=600, heap="2g",
-                  simulate="num=%d" % (400 if quick else 6000), depth=80, extra_args=["-seed", str(vlib.seed())])
+                  simulate="num=%d" % (400 if quick else 4000), depth=80, extra_args=["-seed", str(vlib.seed())])
     c3 = vlib.mbt_lines(g3["out"])
     seen = set()
     for c in c3:
@@ -268,7 +268,7 @@ def run(tier, v):
             seen.add(k)
             cases.append(c)
     cov["mbt_orderings_n3_simulated"] = len(seen)
-    cases += _storms(60 if quick else 1500, rnd)
+    cases += _storms(60 if quick else 1000, rnd)
     for n, c in enumerate(cases):
         c["id"] = n + 1
         c["seed"] = vlib.seed()
@@ -400,7 +400,7 @@ def run(tier, v):
     stage("selftest")
     # ---- 3. loopback TCP and one relay hop
     tdir = os.path.join(vlib.scratch(), "c17tcp")
-    ts = vlib.run_driver(h, "c17_tcp", tdir, {"runs": 400 if quick else 6000, "shards": 8, "par": 24}, timeout=2400)
+    ts = vlib.run_driver(h, "c17_tcp", tdir, {"runs": 400 if quick else 4000, "shards": 8, "par": 24}, timeout=2400)
     tinfos = _infos(tdir)
     _side_checks("tcp", tinfos, v, cov)
     plans = {i["id"]: i.get("plan") for i in tinfos}
@@ -410,7 +410,7 @@ def run(tier, v):
     nrel = 0
     rinfos = []
     rdirs = []
-    for b in range(2 if quick else 12):
+    for b in range(2 if quick else 8):
         rdir = os.path.join(vlib.scratch(), "c17relay%d" % b)
         rs = vlib.run_driver(h, "c17_relay", rdir, {"runs": 48, "shards": 8, "par": 6, "id0": 1000 * (b + 1)}, timeout=1200)
         rinfos += _infos(rdir)
